@@ -21,7 +21,7 @@ RULE = ('a case = 1-3 synthetic data sets of one format (MVF v4 in-memory telsta
         'also v3+v4 mixtures) with 2-7 dumps each, distinct start times (sometimes equal: refused), equal dump periods '
         '(sometimes different: must be refused), 1-3 target events per part drawn from a pool of 6 targets incl. shared '
         'aliases and a same-name-different-target pair, 1-4 activity events, 0-3 labels, float / string / int / bool '
-        '(now and then uint8) sensors and directly assigned int arrays each present in a random subset of the parts, '
+        '/ unsigned integer (uint8 / 16 / 32, also different widths in different parts) sensors and directly assigned int arrays each present in a random subset of the parts, '
         'sometimes parts of another subarray (other antenna, same products in another order, same antenna names at '
         'another position) and / or spectral window (centre frequency, channel width, product, band), also several of '
         'both; concatenated in a random input order through katdal.open([...]) or '
@@ -32,16 +32,20 @@ RULE = ('a case = 1-3 synthetic data sets of one format (MVF v4 in-memory telsta
         'compscans() run to exhaustion; on concatenations with several subarrays / windows the same after '
         'select(subarray=s, spw=w) for every pair (s, w) plus a fixed pol / ants / inputs / corrprods / freqrange history.  Non-trivial: at least 2 parts opened and a selection that keeps dumps of at '
         'least two parts; distinct by the generated case (seed)')
-ASSUMPTIONS = ['parts of a case cover disjoint time ranges (compatible data sets); overlapping parts are not generated',
+ASSUMPTIONS = ['overlapping parts (kind=overlap) shifted by a fraction of a dump have no common dump grid for C02\'s observation: they get the model-free battery of index-free criteria',
                'select histories on concatenations with several merged subarrays / spectral windows start with '
                'select(subarray=s, spw=w) and do not name spw / subarray again (Model/ConcatMulti.v); v3+v4 mixtures (no '
                'common dump grid) get a model-free battery of index-free criteria against the stand-alone parts',
                'subarrays / spectral windows are identified by their public attributes (antenna descriptions and '
                'correlation products in order; centre_freq, channel_width, num_chans, sideband, band, product, bandwidth)',
-               'a sensor of an unsigned integer type missing from a part: open finding C19-F4; once repaired any single '
-               'filler value over the absent parts is accepted',
-               'parts whose subarrays / spectral windows differ in the NUMBER of products / channels are not generated '
-               '(the v4 indexers of such a concatenation raise on any data access)',
+               'the dummy value of an unsigned integer type of b bits is its largest value 2^b - 1 (the value the documented '
+               'integer dummy -1 is stored as; Model/Concat.v spec_dummy_u), b = the width of numpy\'s promotion of the '
+               'dtypes of the parts that have the sensor; uint64 sensors are not generated (2^64 - 1 does not fit the 63-bit '
+               'integers of the extracted driver; the theorems hold for any width)',
+               'parts whose subarrays / spectral windows differ in the NUMBER of products / channels (kind=sizes): open level, '
+               'metadata, input order and, for every (subarray, spw) pair with dumps, all four arrays completely and under an int / '
+               'strided slice / mask head against the glued stand-alone parts (Model/ConcatData.v ds_getitem_sized); no select '
+               'histories; v4 parts: open finding C19-F5',
                'second-stage indices are restricted to the forms C05 proves for ConcatenatedLazyIndexer: no negative '
                'steps, no empty head slice whose start lies in a later part than its stop, no empty tail selection '
                '(open findings F10 / F10b / F30b of C05), integer lists sorted',
@@ -89,6 +93,7 @@ def gen_case(rng):
     starts = [100 * s for s in rng.sample(range(1, 14), k)]
     special = rng.random()
     kind = 'plain'
+    force_T = {}
     F = rng.choice([2, 4])
     dts = [2.0] * k
     ants = [('m000', 'm001')] * k
@@ -108,9 +113,27 @@ def gen_case(rng):
         if mixed:
             fmts = [fmts[0]] * k
             mixed = False
+    elif k >= 2 and 0.46 <= special < 0.54:
+        # OVERLAPPING parts: the second one starts while the first is still running (same dump grid or shifted by a
+        # fraction of a dump); the order is still the one of the start times, the timestamps of the whole are not monotonic
+        kind = 'overlap'
+        starts[1] = starts[0] + rng.choice([1, 2, 3, 4, 5])
+        if rng.random() < 0.5:
+            force_T = {0: rng.randint(6, 7), 1: rng.randint(2, 3)}     # the second part lies INSIDE the first: it ends earlier
+    elif k >= 2 and 0.54 <= special < 0.60 and not mixed and fmts[0] != 'v1':
+        # parts of another SIZE: a spectral window with another number of channels and / or a subarray with another
+        # number of antennas (correlation products)
+        kind = 'sizes'
+        how = rng.choice(['chans', 'prods', 'both'])
+        for i in some_parts():
+            if how in ('chans', 'both'):
+                var[i]['F'] = 6 - F
+            if how in ('prods', 'both'):
+                ants[i] = ('m000', 'm001', 'm062')
     elif k >= 2 and special < 0.11:
         kind = 'period'
-        dts[rng.randrange(k)] = 4.0
+        # clearly different, or different only beyond the 6 significant digits the error message prints
+        dts[rng.randrange(k)] = 4.0 if rng.random() < 0.5 else 2.0000002
     elif k >= 2 and special < 0.17 and not mixed:
         kind = 'subarray'
         ants[rng.randrange(k)] = ('m000', 'm062')
@@ -144,12 +167,15 @@ def gen_case(rng):
                 break
     pool = rng.sample(range(len(c19parts.TARGETS)), rng.randint(2, 4))
     present = {s: [rng.random() < 0.6 for _ in range(k)] for s in SHORTS}
-    if rng.random() >= 0.12:
-        present['u'] = [False] * k      # sensors of an unsigned integer type (open finding C19-F4) only now and then
+    if rng.random() >= 0.45:
+        present['u'] = [False] * k      # sensors of an unsigned integer type (finding C19-F4, repaired) in about half the cases
+    # one width for all parts, or (now and then) different widths in different parts: numpy's promotion = the widest
+    uwidths = [rng.choice(['u', 'u', 'u16', 'u32'])] * k if rng.random() < 0.7 else [rng.choice(['u', 'u16', 'u32']) for _ in range(k)]
     arr_present = [rng.random() < 0.5 for _ in range(k)] if rng.random() < 0.2 else [False] * k
     parts = []
     for i in range(k):
         T = rng.randint(2, 7)
+        T = force_T.get(i, T)
         sens = {}
         if fmts[i] == 'v1':
             present = {s: [False] * k for s in SHORTS}      # the v1 writer has no such sensors
@@ -162,10 +188,10 @@ def gen_case(rng):
         if present['i'][i]:
             sens['i'] = ('i', gen_events(rng, T, [-1, 0, 3, 5], first=rng.random() < 0.8, maxn=2) or [(0, 3)])
         if present['u'][i]:
-            sens['u'] = ('u', gen_events(rng, T, [0, 3, 200, 255], first=rng.random() < 0.8, maxn=2) or [(0, 3)])
+            sens['u'] = (uwidths[i], gen_events(rng, T, [0, 3, 200, 255], first=rng.random() < 0.8, maxn=2) or [(0, 3)])
         if present['b'][i]:
             sens['b'] = ('b', gen_events(rng, T, [True, False], first=rng.random() < 0.8, maxn=2) or [(0, True)])
-        spec = dict(fmt=fmts[i], T=T, start=starts[i], dt=dts[i], ants=list(ants[i]), F=F, cfv=cfv[i],
+        spec = dict(fmt=fmts[i], T=T, start=starts[i], dt=dts[i], ants=list(ants[i]), F=var[i].pop('F', F), cfv=cfv[i],
                     acts=gen_events(rng, T, STATES_RAW, maxn=3), targets=gen_events(rng, T, pool, maxn=2),
                     labels=gen_events(rng, T, c02.LABELS[1:] + [''], first=rng.random() < 0.7, maxn=2),
                     sens=sens, arrs=({'a': [rng.randint(-3, 9) for _ in range(T)]} if arr_present[i] else {}),
@@ -179,9 +205,32 @@ def gen_case(rng):
         parts.append(spec)
     order = list(range(k))
     rng.shuffle(order)
-    return dict(kind=kind, mixed=mixed, parts=parts, order=order, via_open=rng.random() < 0.6,
-                keep=[rng.random() < 0.65 for _ in range(sum(p['T'] for p in parts))],
-                hseed=rng.randrange(1 << 30))
+    gen = dict(kind=kind, mixed=mixed, parts=parts, order=order, via_open=rng.random() < 0.6,
+               keep=[rng.random() < 0.65 for _ in range(sum(p['T'] for p in parts))],
+               hseed=rng.randrange(1 << 30))
+    # metadata of the parts (a generator of its own: the cases above stay what they were): observer / description /
+    # experiment_id / further obs_params, some missing from some parts, list values; the reference antenna a part is
+    # opened with when the concatenation is built from data set objects
+    mrng = random.Random(gen['hseed'] ^ 0x5EED)
+    for spec in parts:
+        if mrng.random() < 0.65:
+            extra = {}
+            if mrng.random() < 0.6:
+                extra['sb_id_code'] = mrng.choice(['S', 'S2'])
+            if mrng.random() < 0.5:
+                extra['notes'] = mrng.choice(['x', ['a', 'b'], ['a'], 3])
+            if mrng.random() < 0.4:
+                extra['zeta'] = mrng.choice(['', 'z'])
+            spec['meta'] = dict(observer=mrng.choice(['verif', 'alice', '']), description=mrng.choice(['synthetic', 'other run']),
+                                experiment_id=mrng.choice(['', '2026-1', '2026-2']), extra=extra,
+                                drop=[x for x in ('proposal_id', 'sb_id_code') if mrng.random() < 0.3],
+                                reverse=mrng.random() < 0.3)
+        if mrng.random() < 0.4:
+            spec['ref_ant'] = mrng.choice(spec['ants'])
+    common = [a for a in parts[0]['ants'] if all(a in p['ants'] for p in parts)]
+    if common and mrng.random() < 0.3:
+        gen['open_ref_ant'] = mrng.choice(common)       # katdal.open([...], ref_ant): the same for every part
+    return gen
 
 
 # ---------------------------------------------------------------------------------------------------------------
@@ -248,6 +297,9 @@ class Ids:
                         cs.disagree('stage=ident;what=%s_eq_vs_model' % which, impl, model[which][i] == model[which][j],
                                     'the model of %s.__eq__ differs from the implementation' % ('Subarray' if which == 'sub' else 'SpectralWindow'),
                                     kind='tie', entries=[repr(raw[j]), repr(raw[i])])
+        if len(out) > 3 and out[3] != [2 ** 8 - 1, 2 ** 16 - 1, 2 ** 32 - 1]:     # (an older last-good driver has no such table)
+            cs.disagree('stage=ident;what=unsigned_dummy_table_vs_model', out[3], [2 ** b - 1 for b in (8, 16, 32)],
+                        'the dummy values of uint8 / 16 / 32 read from dummy_sensor_getter are not the largest values of the types', kind='tie')
         if out[2] != [NAN, -1, 0, 0, -8888]:
             cs.disagree('stage=ident;what=dummy_table_vs_model', out[2], [NAN, -1, 0, 0, -8888],
                         'the dummy values read from dummy_sensor_getter are not nan / -1 / \'\' / False / None', kind='tie')
@@ -317,9 +369,20 @@ def read_sensor(d, name, ids):
     except KeyError:
         return None
     if isinstance(x, CategoricalData):
-        return ('cat', dtype_code(x.dtype), cd_wire(x, lambda v: vid(ids, v)), np.dtype(x.dtype).kind if x.dtype is not None else 'O')
+        return ('cat', dtype_code(x.dtype), cd_wire(x, lambda v: vid(ids, v)), np.dtype(x.dtype).kind if x.dtype is not None else 'O',
+                np.dtype(x.dtype) if x.dtype is not None else None)
     x = np.asarray(x)
-    return ('num', int(x.dtype.kind == 'f'), [vid(ids, v) for v in x.tolist()], x.dtype.kind)
+    return ('num', int(x.dtype.kind == 'f'), [vid(ids, v) for v in x.tolist()], x.dtype.kind, x.dtype)
+
+
+def unsigned_bits(sens_of_parts):
+    """0, or the width in bits of numpy's promotion of the dtypes of the parts that have the sensor when that is an
+    unsigned integer type (what katdal's common_dtype hands dummy_sensor_getter)."""
+    dts = [s[4] for s in sens_of_parts if s is not None and s[4] is not None]
+    if not dts or any(dt.kind not in 'iu' for dt in dts):
+        return 0
+    rt = np.result_type(*dts)
+    return rt.itemsize * 8 if rt.kind == 'u' else 0
 
 
 def sensor_names(case):
@@ -349,8 +412,10 @@ def read_arrays(d):
                 flags=np.asarray(d.flags[:]).copy(), weights=np.asarray(d.weights[:]).copy())
 
 
-def part_wire(info, t_epoch, unit, starts, dps, names):
+def part_wire(info, t_epoch, unit, starts, dps, names, refused=False):
     ts = (info['ts'] - t_epoch) / unit
+    if refused:
+        ts = np.round(ts)       # differing dump periods (no common grid): the refusal does not depend on the timestamps
     assert np.all(ts == np.round(ts)), 'timestamps are not on the quarter-dump grid'
     sens = []
     for j, n in enumerate(names):
@@ -503,30 +568,15 @@ def stage_open(cs, parts, twins_info, c, exc, out, names, how):
                 x = read_sensor(c, n, ids)
             except Exception as e:      # noqa: BLE001
                 x = ('raised', repr(e), type(e).__name__)
-            if cs.uns[j] and cs.lacks[j]:
-                # unsigned integer type, missing from a part: finding C19-F4 (dummy_sensor_getter: np.uint8(-1))
-                dead.add(j)
-                if x is not None and x[0] == 'raised':
+            if cs.uns[j]:
+                ctx.count('unsigned_sensor_bits=%d;%s' % (cs.uns[j], 'missing_from_a_part' if cs.lacks[j] else 'in_every_part'))
+                if x is not None and x[0] == 'raised' and cs.lacks[j]:
+                    # the symptom of finding C19-F4 (repaired): dummy_sensor_getter cannot make the dummy of an unsigned type
+                    dead.add(j)
                     ctx.disagree('stage=sensor;what=unsigned_missing_raises;exc=%s' % x[2], cs.doc(name=n), x[1], ms,
                                  'a sensor of an unsigned integer type that some part lacks cannot be read from the concatenation',
                                  spec=ss[0] if ss else None)
-                    if ms != [3]:
-                        cs.disagree('stage=sensor;what=unsigned_vs_model;name=%s' % short_name(n), x[1], ms, 'model answers', kind='tie')
-                elif x is not None:
-                    # (a repaired dummy_sensor_getter) the parts that have it as they are, ONE filler value elsewhere
-                    per_dump = x[2] if x[0] == 'num' else expand_wire(x[2])
-                    segs_ = [int(v) for v in c._segments]
-                    okv = ss and len(per_dump) == len(ss[0])
-                    for pi, sidx in enumerate(cs.sorted_twins):
-                        if not okv:
-                            break
-                        a, b = per_dump[segs_[pi]:segs_[pi + 1]], ss[0][segs_[pi]:segs_[pi + 1]]
-                        okv = (a == b) if twins_info[sidx]['sens'][n] is not None else len(set(a)) == 1
-                    if not okv:
-                        cs.disagree('stage=sensor;what=values;name=%s' % short_name(n), per_dump, ms,
-                                    'sensor is not the concatenation of the parts with dummy fill', spec=ss[0] if ss else None)
-                    ctx.count('unsigned_missing_filled')
-                continue
+                    continue
             if x is None:
                 if ss:
                     cs.disagree('stage=sensor;what=keyerror;name=%s' % short_name(n), 'KeyError', ms,
@@ -623,6 +673,12 @@ def gen_axis_index(rng, n, head):
     l = sorted(rng.sample(range(n), k))
     if head and rng.random() < 0.3:
         l = l[:-1] + [l[-1] - n]       # the last one written as a negative index
+    elif head and len(l) > 1 and rng.random() < 0.4:
+        # the parts visited out of time order (each part's own rows still increasing when the cut falls on a part
+        # boundary; otherwise the part's own indexer refuses the unsorted list: outside the domain)
+        j = rng.randrange(1, len(l))
+        l = l[j:] + l[:j]
+        return list(l), [3, l], 'rotlist'
     return list(l), [3, l], 'list'
 
 
@@ -660,7 +716,7 @@ def stage_data(cs, c, twins_arrays, masks, rng, nidx, tag, tws=None, fw_touched=
     fk, bk = np.asarray(fk, dtype=bool), np.asarray(bk, dtype=bool)
     # a fixed battery (list / mask / slice / scalar head with scalar tails, over the part boundaries) on every array
     # kind, then nidx random indices
-    todo = [(a, k) for a in ARRAYS for k in ((0, 1, 2, 3, 4, 5, 6) if a != 'timestamps' else (0, 1, 5, 6))] if tag == 'after=open' else []
+    todo = [(a, k) for a in ARRAYS for k in ((0, 1, 2, 3, 4, 5, 6, 7) if a != 'timestamps' else (0, 1, 5, 6, 7))] if tag == 'after=open' else []
     todo += [(None, None)] * nidx
     for (arr, fixed) in todo:
         arr = arr or rng.choice(ARRAYS)
@@ -703,6 +759,11 @@ def stage_data(cs, c, twins_arrays, masks, rng, nidx, tag, tws=None, fw_touched=
                     continue
                 heads += [None] * (fixed - 4)
                 heads[fixed] = (slice(None, b, st), [1, [], [b], [st]], 'slice')
+                if fixed == 7:
+                    # an integer list that asks for rows of a LATER part first: [first row after the first boundary,
+                    # last row, first row] - the answer keeps the order of the list
+                    l7 = [b] + ([n - 1] if n - 1 > b else []) + [0]
+                    heads[fixed] = (l7, [3, l7], 'rotlist')
                 tails += [[]] * (fixed - 4)
             items = [heads[fixed]] + (tails[fixed] if arr != 'timestamps' else [])
             py, wire, forms = [list(x[0]) if isinstance(x[0], list) else x[0] for x in items], [x[1] for x in items], [x[2] for x in items]
@@ -754,6 +815,12 @@ def stage_data(cs, c, twins_arrays, masks, rng, nidx, tag, tws=None, fw_touched=
             continue
         # tie: model labels -> stored values
         if not label_tie:
+            continue
+        if mo[0][0] == 0 and forms[0] == 'rotlist' and 'v1' in cs.fmt:
+            # a v1 data set is itself a concatenation of per-scan indexers: a list that is unsorted inside a PART (which
+            # the model of a one-indexer part refuses) can still be sorted inside every scan; the answer was compared
+            # with the spec above
+            ctx.count('v1_unsorted_list_inside_a_part_answered')
             continue
         if mo[0][0] == 0:
             cs.disagree(sig + ';what=model_rejects', list(got.shape), 'Err', 'model rejects an index the implementation answers', kind='tie',
@@ -1114,6 +1181,82 @@ def multi_criteria(rng, tw, T):
     return out
 
 
+def stage_sizes(cs, c, twins, arrays, sorted_idx):
+    """Parts whose spectral windows / subarrays differ in SIZE: after select(subarray=s, spw=w) every array of the whole
+    is the glued stored arrays of the parts of that subarray and window (the others have no selected dump).  h5 parts
+    deliver that; v4 parts raise on every access (open finding C19-F5).  Model: wire_196 (ds_getitem_sized)."""
+    ctx = cs.ctx
+    segs = [int(x) for x in c._segments]
+    tws = [twins[i] for i in sorted_idx]
+    arrs = [arrays[i] for i in sorted_idx]
+    strict = 'v4' in cs.fmt
+    msubs, mspws = [sub_key(x) for x in c.subarrays], [spw_key(x) for x in c.spectral_windows]
+    for s in range(len(msubs)):
+        for w in range(len(mspws)):
+            members = [i for i, tw in enumerate(tws) if sub_key(tw.subarrays[0]) == msubs[s] and spw_key(tw.spectral_windows[0]) == mspws[w]]
+            if not members:
+                continue
+            try:
+                c.select(subarray=s, spw=w)
+            except Exception as e:      # noqa: BLE001
+                cs.disagree('stage=sizes;what=select_raises', repr(e), None, 'select(subarray=s, spw=w) raised', sw=[s, w])
+                continue
+            tk = [bool(x) for x in c._time_keep]
+            exp_tk = [i in members for i in range(len(tws)) for _ in range(segs[i + 1] - segs[i])]
+            if tk != exp_tk:
+                cs.disagree('stage=sizes;what=time_mask', [int(x) for x in tk], None,
+                            'select(subarray=s, spw=w) does not keep exactly the dumps of the parts of that subarray and window',
+                            spec=[int(x) for x in exp_tk], sw=[s, w])
+                continue
+            tail = list(arrs[members[0]]['vis'].shape[1:])
+            wparts, nxt = [], 0
+            for i, a in enumerate(arrs):
+                T = a['vis'].shape[0]
+                base = 0 if T == 0 else -(-nxt // T)
+                nxt = base * T + T
+                wparts.append([list(a['vis'].shape[1:]), T, [int(x) for x in tk[segs[i]:segs[i + 1]]], base])
+            mo = ctx.model([[196, [int(strict), tail, [[1] * tail[0], [1] * tail[1]], 0, wparts, [[1, [], [], []]]]]])[0]
+            if mo == [-999]:
+                ctx.count('model_wire_missing_in_last_good_driver:196')
+                mo = [[1, 0, list(np.concatenate([arrs[i]['vis'] for i in members]).shape), []]] * 2
+            if mo[1][0] == 0:
+                cs.disagree('stage=sizes;what=spec_refuses', None, mo[0], 'the spec of the sized model refuses', kind='tie', sw=[s, w])
+                continue
+            for arr in ARRAYS:
+                exp = np.concatenate([arrs[i][arr] for i in members])
+                for label, idx in (('all', slice(None)), ('int', 0), ('slice', slice(1, None, 2)), ('mask', np.arange(len(exp)) % 2 == 0)):
+                    try:
+                        got = np.asarray(getattr(c, arr)[idx])
+                    except Exception as e:      # noqa: BLE001
+                        if strict and arr != 'timestamps' and isinstance(e, IndexError) and len({a['vis'].shape[1:] for a in arrs}) > 1:
+                            # open finding C19-F5: DaskLazyIndexer.shape of the parts of another size
+                            ctx.disagree('stage=sizes;what=v4_part_of_other_size_raises;exc=IndexError', cs.doc(sw=[s, w], array=arr), repr(e),
+                                         mo[0], 'vis / flags / weights of a concatenation of v4 data sets whose spectral windows / subarrays '
+                                         'differ in size cannot be read', spec=list(exp[idx].shape))
+                            if mo[0][0] != 0:
+                                cs.disagree('stage=sizes;what=raises_vs_model', repr(e), mo[0][2], 'model answers, implementation raises', kind='tie', sw=[s, w])
+                        else:
+                            cs.disagree('stage=sizes;array=%s;index=%s;what=raises' % (arr, label), repr(e), None,
+                                        'reading an array of a concatenation with parts of another size raised', spec=list(exp[idx].shape), sw=[s, w])
+                        break
+                    ctx.traces_validated += 1
+                    if not nan_eq(squeeze1(got), squeeze1(exp[idx])):
+                        cs.disagree('stage=sizes;array=%s;index=%s;what=wrong_%s' % (arr, label, 'shape' if squeeze1(got).shape != squeeze1(exp[idx]).shape else 'data'),
+                                    list(got.shape), None, 'the whole is not the glued parts of the selected subarray and window',
+                                    spec=list(exp[idx].shape), sw=[s, w])
+                        break
+                    if label == 'all' and arr == 'vis':
+                        if mo[0][0] == 0:
+                            cs.disagree('stage=sizes;what=model_rejects', list(got.shape), 'Err', 'model refuses, implementation answers', kind='tie', sw=[s, w])
+                        elif list(mo[0][2]) != list(got.shape) or mo[0] != mo[1]:
+                            cs.disagree('stage=sizes;what=shape_vs_model', list(got.shape), mo[0][2], 'shape differs from the sized model', kind='tie', sw=[s, w])
+            ctx.count('sizes_pairs_compared;%s' % ('v4' if strict else 'h5'))
+    try:
+        c.select(subarray=0, spw=0)
+    except Exception:      # noqa: BLE001
+        pass
+
+
 def stage_multi_plain(cs, c, twins, arrays, sorted_idx, rng, mkeeps=None):
     """format mixtures (timestamps of v3 and v4 parts are not on one dump grid: no C02 observation): select(subarray=s,
     spw=w, **criteria that need no index translation) on the whole against the same criteria on the parts alone"""
@@ -1298,18 +1441,21 @@ def run_case(ctx, cseed, gen=None, stages=('open', 'data', 'select', 'scans', 'o
             cs.unit = unit = min(dps) / 4.0
             cs.t_epoch = t_epoch = min(o['ts'][0] for o in infos)
             order = gen['order']
-            wire_parts = [part_wire(infos[i], t_epoch, unit, starts, dps, names) for i in order]
-            cs.uns = [any(o['sens'][n] is not None and o['sens'][n][3] == 'u' for o in infos) for n in names]
+            wire_parts = [part_wire(infos[i], t_epoch, unit, starts, dps, names, refused=len(dps) > 1) for i in order]
+            cs.uns = [unsigned_bits([o['sens'][n] for o in infos]) for n in names]
             cs.lacks = [any(o['sens'][n] is None for o in infos) and any(o['sens'][n] is not None for o in infos) for n in names]
             wnames = [[j, 0, int(cs.uns[j])] for j in range(len(names))]
             out = ctx.model([[19, [wire_parts, wnames, [int(x) for x in gen['keep']]]]])[0]
             c, exc, how = None, None, ''
             try:
-                c, how = c19parts.open_concat(parts, order, gen['via_open'])
+                c, how = c19parts.open_concat(parts, order, gen['via_open'], gen.get('open_ref_ant', ''))
             except Exception as e:      # noqa: BLE001
                 exc = e
             ctx.count('fmt=' + cs.fmt)
+            ctx.count('built_by=%s;fmt=%s' % (how or 'refused', cs.fmt))
             ctx.count('kind=' + gen['kind'])
+            if gen['kind'] == 'period':
+                ctx.count('dump_periods=' + ('equal_to_6_digits_only' if any(p['dt'] not in (2.0, 4.0) for p in gen['parts']) else 'clearly_different'))
             ctx.count('parts=%d' % len(parts))
             for n in names[:-2]:
                 pres = sum(1 for o in infos if o['sens'][n] is not None)
@@ -1322,6 +1468,20 @@ def run_case(ctx, cseed, gen=None, stages=('open', 'data', 'select', 'scans', 'o
                           sample=dict(fmt=cs.fmt, kind=gen['kind'], parts=[p['T'] for p in gen['parts']], order=order,
                                       catalogue=[t.name for t in c.catalogue.targets], scans=out[2][12]))
             sorted_idx = [i for s in out[2][1] for i in range(len(parts)) if starts.index(infos[i]['start']) == s]
+            if how == 'katdal.open':
+                # katdal.open([...], ref_ant): every part is opened with that reference antenna (default: its own first one,
+                # as the stand-alone twins) and the concatenation reports it
+                want = [gen['open_ref_ant']] * len(parts) if gen.get('open_ref_ant') else [twins[i].ref_ant for i in sorted_idx]
+                got_ra = [d.ref_ant for d in c.datasets]
+                if got_ra != want or c.ref_ant != [twins[i].ref_ant if not gen.get('open_ref_ant') else gen['open_ref_ant'] for i in order][0]:
+                    cs.disagree('stage=open;what=ref_ant_of_katdal_open', [c.ref_ant, got_ra], None,
+                                'katdal.open([...], ref_ant) did not open every part with that reference antenna',
+                                spec=[want[0], want])
+                ctx.count('katdal_open_ref_ant=%s' % ('given' if gen.get('open_ref_ant') else 'default'))
+            if 'open' in stages:
+                with warnings.catch_warnings():
+                    warnings.simplefilter('ignore')
+                    stage_meta(cs, c, [infos[i]['start'] for i in order], 'via=' + ('open' if how == 'katdal.open' else 'objects'))
             drng = random.Random(gen['hseed'] + 1)
             keep0 = [int(x) for x in c._time_keep]
             segs = [int(x) for x in c._segments]
@@ -1333,17 +1493,25 @@ def run_case(ctx, cseed, gen=None, stages=('open', 'data', 'select', 'scans', 'o
                 stage_data(cs, c, [arrays[i] for i in sorted_idx], (tks, [1] * arrays[0]['vis'].shape[1], [1] * arrays[0]['vis'].shape[2]),
                            drng, ctx.scale(4, 8), 'after=open')
             single = len(c.subarrays) == 1 and len(c.spectral_windows) == 1
+            offgrid = gen['kind'] == 'overlap' and len(dps) == 1 and \
+                any(((o['ts'][0] - t_epoch) / dps[0]) % 1 for o in infos if len(o['ts']))
+            if offgrid:
+                # overlapping parts shifted by a fraction of a dump: no common dump grid for C02's observation of the
+                # whole; like v3+v4 mixtures they get the model-free battery of index-free criteria against the twins
+                ctx.count('overlapping_parts_off_the_dump_grid')
             if 'order' in stages and len(parts) >= 2 and cs.bad == 0:
                 stage_order(cs, parts, c, names, order, drng)
             ob = None
-            if 'select' in stages and single and cs.bad == 0:
+            if 'select' in stages and single and cs.bad == 0 and not offgrid:
                 wp_sorted = [part_wire(infos[i], t_epoch, unit, starts, dps, names) for i in order]
                 ob = stage_select(cs, c, parts, twins, infos, arrays, sorted_idx, wp_sorted, names, ctx.scale(2, 4))
             if 'scans' in stages and single and cs.bad == 0 and ob is not None:
                 stage_scans(cs, ob, drng)
-            if 'select' in stages and not single and cs.bad == 0 and gen['mixed']:
+            if 'select' in stages and cs.bad == 0 and ((not single and gen['mixed']) or offgrid):
                 stage_multi_plain(cs, c, twins, arrays, sorted_idx, drng)
-            if 'select' in stages and not single and cs.bad == 0 and same_shape and not gen['mixed']:
+            if 'select' in stages and not single and cs.bad == 0 and not same_shape and not gen['mixed']:
+                stage_sizes(cs, c, twins, arrays, sorted_idx)
+            if 'select' in stages and not single and cs.bad == 0 and same_shape and not gen['mixed'] and not offgrid:
                 wp = [part_wire(infos[i], t_epoch, unit, starts, dps, names) for i in order]
                 stage_multi(cs, c, parts, twins, infos, arrays, sorted_idx, wp, names, ctx.scale(1, 2))
     finally:
@@ -1364,6 +1532,9 @@ def expand_index(w):
 def summary(c, ids, names):
     """Everything the property constrains about an opened concatenation, canonical (for the input-order comparison)."""
     out = dict(ts=np.asarray(c.sensor.timestamps[:]).tolist(), shape=[int(x) for x in c.shape],
+               meta=repr([c.name, c.version, c.observer, c.description, c.experiment_id, list(c.obs_params.items()),
+                          list(c.receivers.items()), float(c.start_time.secs), float(c.end_time.secs),
+                          [d.name for d in c.datasets]]),
                cat=[t.description for t in c.catalogue.targets], subs=[sub_key(s) for s in c.subarrays],
                spws=[spw_key(s) for s in c.spectral_windows], dumps=[int(x) for x in c.dumps])
     for n in OBS:
@@ -1382,32 +1553,147 @@ def summary(c, ids, names):
     return out
 
 
+META_JOINS = [('name', ','), ('url', ' | '), ('version', ','), ('observer', ','), ('description', ' | '), ('experiment_id', ',')]
+
+
+def _same(a, b):
+    """Python's == as itertools.groupby / unique_in_order apply it (anything that cannot be compared is different)"""
+    try:
+        return type(a) is type(b) and bool(a == b)
+    except Exception:      # noqa: BLE001
+        return False
+
+
+def stage_meta(cs, c, input_starts, tag, objs=None):
+    """The metadata of the concatenation c against Model/ConcatMeta.v (wire_195).  The attributes of the parts are read
+    from c.datasets (the constructor does not touch them) and handed to the model in INPUT order."""
+    ctx = cs.ctx
+    table = ['']
+
+    def vid_(v):
+        for i, t in enumerate(table):
+            if _same(t, v):
+                return i
+        table.append(v)
+        return len(table) - 1
+    by_start = {float(d.start_time.secs): d for d in c.datasets}
+    try:
+        objs = objs if objs is not None else [by_start[float(st)] for st in input_starts]
+        if sorted(id(d) for d in objs) != sorted(id(d) for d in c.datasets):
+            raise KeyError('objects')
+    except KeyError:
+        cs.disagree('stage=meta;what=datasets_lost;%s' % tag, sorted(by_start), list(input_starts),
+                    'self.datasets are not the data sets that were handed in', kind='tie')
+        return
+    times = sorted({float(d.start_time.secs) for d in objs} | {float(d.end_time.secs) for d in objs})
+    wire = []
+    for d in objs:
+        wire.append([times.index(float(d.start_time.secs)), times.index(float(d.end_time.secs)), vid_(d.name), vid_(d.url),
+                     vid_(d.version), vid_(d.observer), vid_(d.description), vid_(d.experiment_id),
+                     [[vid_(k), vid_(v)] for k, v in d.obs_params.items()], [[vid_(k), vid_(v)] for k, v in d.receivers.items()],
+                     vid_(d.ref_ant), vid_(float(d.time_offset))])
+    out = ctx.model([[195, wire]])[0]
+    if out == [-999]:
+        ctx.count('model_wire_missing_in_last_good_driver:195')      # (only while a broken obligation is being searched)
+        return
+    if not out:
+        cs.disagree('stage=meta;what=model_refuses;%s' % tag, 'opened', out, 'the metadata model refuses data sets that were concatenated', kind='tie')
+        return
+    ctx.traces_validated += 1
+    ctx.count('meta_compared')
+    ctx.count('meta_distinct_ref_ants=%d' % len({d.ref_ant for d in objs}))
+
+    def bad(what, impl, model):
+        cs.disagree('stage=meta;what=%s;%s' % (what, tag), impl, model,
+                    'metadata of the concatenation differs from the model of the merge in ConcatenatedDataSet.__init__', kind='tie')
+    for (field, sep), ids_ in zip(META_JOINS, out[:6]):
+        exp = sep.join(str(table[i]) for i in ids_)
+        if getattr(c, field) != exp:
+            bad(field, getattr(c, field), exp)
+    for attr, mdict in (('obs_params', out[6]), ('receivers', out[7])):
+        got = list(getattr(c, attr).items())
+        exp = [(table[k], table[mv[1]] if mv[0] == 0 else [table[x] for x in mv[1]]) for k, mv in mdict]
+        ok = len(got) == len(exp)
+        for (gk, gv), (ek, ev), (_, mv) in zip(got, exp, mdict):
+            if not ok:
+                break
+            if mv[0] == 0:
+                ok = gk == ek and _same(gv, ev)
+            else:
+                ok = gk == ek and isinstance(gv, list) and len(gv) == len(ev) and all(_same(a, b) for a, b in zip(gv, ev))
+                ctx.count('meta_%s_differ_between_parts' % attr)
+        if not ok:
+            bad(attr, repr(got), repr(exp))
+    if float(c.start_time.secs) != times[out[8]] or float(c.end_time.secs) != times[out[9]]:
+        bad('start_end', [float(c.start_time.secs), float(c.end_time.secs)], [times[out[8]], times[out[9]]])
+    if c.ref_ant != table[out[10]] or float(c.time_offset) != table[out[11]]:
+        bad('ref_ant', [c.ref_ant, float(c.time_offset)], [table[out[10]], table[out[11]]])
+    if [float(d.start_time.secs) for d in c.datasets] != [times[i] for i in out[12]]:
+        bad('order', [float(d.start_time.secs) for d in c.datasets], [times[i] for i in out[12]])
+
+
 def stage_order(cs, parts, c, names, order, rng):
-    """Another input order of the same parts gives the same data set."""
+    """Another input order of the same parts gives the same data set - also (every second time) when the parts carry a
+    TIME selection of their own when they are handed to ConcatenatedDataSet: the constructor gives every part a slice
+    view of one global mask and applies the default selection; in particular the scan / compscan indices continue by the
+    number of scans a part HAS, not by those it had selected."""
+    from katdal.concatdata import ConcatenatedDataSet
     other = list(order)
     while other == order:
         rng.shuffle(other)
+    done = []
     with warnings.catch_warnings():
         warnings.simplefilter('ignore')
         try:
-            c2, _ = c19parts.open_concat(parts, other, False)
+            fresh = [parts[i].fresh(parts[i].spec.get('ref_ant', '')) for i in other]
+            if rng.random() < 0.5:
+                for d in fresh:
+                    how = rng.choice(['none', 'scan0', 'dump0', 'compscan_last', 'target0', 'state'])
+                    try:
+                        if how == 'scan0':
+                            d.select(scans=0)
+                        elif how == 'dump0':
+                            d.select(dumps=[0])
+                        elif how == 'compscan_last':
+                            d.select(compscans=int(max(d.sensor.get('Observation/compscan_index').unique_values)))
+                        elif how == 'target0':
+                            d.select(targets=0)
+                        elif how == 'state':
+                            d.select(scans=str(d.sensor.get('Observation/scan_state').unique_values[-1]))
+                    except Exception:      # noqa: BLE001
+                        how = 'none'
+                    done.append(how)
+            c2 = ConcatenatedDataSet(fresh)
         except Exception as e:      # noqa: BLE001
-            cs.disagree('stage=order;what=raises', repr(e), 'opens', 'another input order of the same parts is refused', order2=other)
+            cs.disagree('stage=%s;what=raises' % ('preselect' if done else 'order'), repr(e), 'opens',
+                        'another input order of the same parts is refused', order2=other, preselect=done)
             return
         a, b = summary(c, cs.ids, names), summary(c2, cs.ids, names)
     bad = [k for k in a if a[k] != b[k]]
+    pre = any(h != 'none' for h in done)
     if bad:
-        cs.disagree('stage=order;what=differs:%s' % ','.join(sorted(x.split('/')[-1] for x in bad)),
+        cs.disagree('stage=%s;what=differs:%s' % ('preselect' if pre else 'order', ','.join(sorted(x.split('/')[-1] for x in bad))),
                     {k: a[k] if not isinstance(a[k], tuple) else a[k][0] for k in bad[:4]},
-                    None, 'the concatenation depends on the order of the input list',
-                    spec={k: b[k] if not isinstance(b[k], tuple) else b[k][0] for k in bad[:4]}, order2=other)
+                    None, 'the concatenation depends on the order of the input list' +
+                    (' or on the time selection the parts carried when they were concatenated' if pre else ''),
+                    spec={k: b[k] if not isinstance(b[k], tuple) else b[k][0] for k in bad[:4]}, order2=other, preselect=done)
     cs.ctx.count('order_permutations_compared')
+    with warnings.catch_warnings():
+        warnings.simplefilter('ignore')
+        stage_meta(cs, c2, None, 'via=objects', objs=fresh)
+    if pre:
+        cs.ctx.count('preselected_parts_compared')
 
 
 def stage_scans(cs, ob, rng):
     """scans() / compscans() on the whole against C03's model and spec (indices continue, selection restored)."""
     from props import c03
+    from vh import core
     ctx = cs.ctx
+    if '3' in core.DRIVER.get('left_out', {}):
+        # C03's model (outside C19's proof cone) does not compile on this tree: its tie is C03's alarm, not ours
+        ctx.count('scans_stage_skipped:model_of_C03_left_out')
+        return
     before = len(ctx.disagreements)
     mode = c03.MODES[rng.randrange(2)] if rng.random() < 0.8 else c03.MODES[rng.randrange(len(c03.MODES))]
     hist = c03.stack_history(rng, ob, rng.choice([0, 0, 1, 2]))
@@ -1429,20 +1715,24 @@ def run(ctx):
     for f in ctx.findings:
         w = f['witness']
         run_case(ctx, w.get('cseed', 0), gen=w.get('gen'))
-    n = ctx.scale(62, 1000)
+    n = ctx.scale(46, 1000)
     seeds = [ctx.rng.randrange(1 << 30) for _ in range(n)]
     kinds = {}
+
+    def qkind(gen):
+        close = gen['kind'] == 'period' and any(p['dt'] not in (2.0, 4.0) for p in gen['parts'])
+        return 'periodclose' if close else gen['kind']
     for cseed in seeds:
         cs = run_case(ctx, cseed)
-        kinds[cs.gen['kind']] = kinds.get(cs.gen['kind'], 0) + 1
+        kinds[qkind(cs.gen)] = kinds.get(qkind(cs.gen), 0) + 1
     # every run meets every special kind of case a few times, whatever the seed
-    quota = {'period': ctx.scale(4, 40), 'tie': ctx.scale(2, 20), 'subarray': ctx.scale(2, 30), 'spw': ctx.scale(2, 30),
-             'subperm': ctx.scale(3, 30), 'subdesc': ctx.scale(2, 20), 'spwvar': ctx.scale(3, 30), 'multi': ctx.scale(3, 40)}
+    quota = {'period': ctx.scale(3, 30), 'periodclose': ctx.scale(3, 30), 'tie': ctx.scale(2, 20), 'subarray': ctx.scale(2, 30), 'spw': ctx.scale(2, 30),
+             'subperm': ctx.scale(3, 30), 'overlap': ctx.scale(4, 40), 'sizes': ctx.scale(4, 40), 'subdesc': ctx.scale(2, 20), 'spwvar': ctx.scale(3, 30), 'multi': ctx.scale(3, 40)}
     tries = 0
     while any(kinds.get(k, 0) < q for k, q in quota.items()) and tries < 20000:
         tries += 1
         cseed = ctx.rng.randrange(1 << 30)
-        kind = gen_case(random.Random(cseed))['kind']
+        kind = qkind(gen_case(random.Random(cseed)))
         if kinds.get(kind, 0) < quota.get(kind, 0):
             run_case(ctx, cseed)
             kinds[kind] = kinds.get(kind, 0) + 1
@@ -1454,6 +1744,11 @@ def run(ctx):
 def incoq(ctx, seeds):
     """Cross-check of the extraction: a sample of wire_19 cases re-evaluated inside Coq with vm_compute."""
     from vh import core
+    if core.DRIVER.get('left_out'):
+        # model files of OTHER properties do not compile on this tree (a partial driver is in use): the complete
+        # dispatcher the in-Coq evaluation loads cannot be rebuilt; their owners report that
+        ctx.extra['in_coq_crosscheck'] = 'skipped: models outside the cone do not compile (%s)' % ', '.join(sorted(set(core.DRIVER['left_out'].values())))
+        return
     cases = []
     for cseed in seeds:
         gen = gen_case(random.Random(cseed))
@@ -1472,7 +1767,20 @@ def incoq(ctx, seeds):
                            cdw([rng.randrange(4) for _ in range(3)]), cdw([0, 1, 2]), cdw([0, 1]),
                            [list(range(len(sev))), list(range(len(sev))), sev + [T]], [[0], [0], [0, T]],
                            [[0, 0, 1, [rng.randrange(5) for _ in range(T)]]] if rng.random() < 0.6 else []])
-        cases.append([19, [wparts, [[0, 0, int(rng.random() < 0.3)]], [int(x) for x in gen['keep']]]])
+        cases.append([19, [wparts, [[0, 0, rng.choice([0, 0, 8, 16, 32])]], [int(x) for x in gen['keep']]]])
+        # the metadata merge (wire_195): small random dictionaries, shared / missing keys, equal / distinct start times
+        metas = []
+        for i, p in enumerate(gen['parts']):
+            d1 = [[k, rng.randrange(3)] for k in rng.sample(range(1, 6), rng.randint(0, 3))]
+            d2 = [[k, rng.randrange(2)] for k in rng.sample(range(1, 4), rng.randint(0, 2))]
+            metas.append([p['start'] // 100, p['start'] // 100 + rng.randint(0, 3), i + 1, 10 + i, rng.randrange(2), rng.randrange(3),
+                          rng.randrange(2), 0, d1, d2, 40 + rng.randrange(2), 0])
+        cases.append([195, metas])
+        # parts of another size (wire_196), lenient and strict
+        sp = [[[2, 3] if rng.random() < 0.6 else [4, 3], p['T'], None, 10 * i] for i, p in enumerate(gen['parts'])]
+        for q in sp:
+            q[2] = [int(q[0] == [2, 3] and rng.random() < 0.7) for _ in range(q[1])]
+        cases.append([196, [rng.randrange(2), [2, 3], [[1, 1], [1, 0, 1]], 0, sp, [[1, [], [], []]]]])
         # identity of subarrays / spectral windows (wire_194) on small random tables with repeats
         cps = [[a, p, b, q] for a in (0, 1) for p in (0, 1) for b in (0, 1) for q in (0, 1)]
         subs = [[[40, 41][:rng.randint(1, 2)], rng.sample(cps, 3)] for _ in range(3)]
